@@ -16,7 +16,7 @@ REPO = os.environ.get("PYVC_REPO", "/repo")
 
 TYPE_ENV = {
     "Int": V.Int, "Real": V.Real, "Bool": V.Bool, "Str": V.Str, "Bytes": V.Bytes, "NoneT": V.NoneT, "Json": V.Json,
-    "Opt": V.Opt, "Tuple": V.Tuple, "List": V.List, "Set": V.Set, "Dict": V.Dict, "Opaque": V.Opaque,
+    "Map": V.Map, "Opt": V.Opt, "Tuple": V.Tuple, "List": V.List, "Set": V.Set, "Dict": V.Dict, "Opaque": V.Opaque,
 }
 
 
@@ -142,7 +142,9 @@ class Registry:
         return self.ufuns[name]
 
     def parse_type(self, node):
-        return eval(compile(ast.Expression(node), "<type>", "eval"), dict(TYPE_ENV))
+        env = dict(TYPE_ENV)
+        env.update(getattr(self, "named_types", {}))
+        return eval(compile(ast.Expression(node), "<type>", "eval"), env)
 
     # ---------------- lookups used by SX
     def lookup_global(self, sx, name, st):
@@ -178,6 +180,18 @@ class Registry:
             return cache[key]
         text, tree = load_source(u.path)
         found = None
+        for node in tree.body:
+            if isinstance(node, (ast.FunctionDef, ast.AsyncFunctionDef)) and node.name == name:
+                # a module-level helper without a contract of its own: verified as part of its callers by inlining
+                fdef = node
+                is_gen = any(isinstance(n, (ast.Yield, ast.YieldFrom)) for n in ast.walk(fdef))
+                if is_gen:
+                    return None
+
+                def call(sx2, args, kwargs, st2, callnode, fdef=fdef):
+                    return sx2.inline_call(fdef, args, kwargs, st2, 0, callnode)
+
+                return Func(call, "inlined:%s" % name)
         for node in tree.body:
             if isinstance(node, ast.Assign) and len(node.targets) == 1 and isinstance(node.targets[0], ast.Name) and node.targets[0].id == name:
                 found = node.value if found is None else "multiple"
@@ -526,10 +540,14 @@ class Registry:
             s2 = st.fork().assume(c)
             if not z3.is_false(z3.simplify(c)) and sx.feasible(s2):
                 self.havoc_frame(sx, con, vals, s2)
+                saved2 = s2.ghost.get("__entry__")
                 s2.ghost["__entry__"] = Conc(entry)
                 for (n2, src) in con.exc_ensures.get(ecls, []):
                     s2.assume(sx.eval_spec(src, s2, vals))
-                s2.ghost.pop("__entry__", None)
+                if saved2 is None:
+                    s2.ghost.pop("__entry__", None)
+                else:
+                    s2.ghost["__entry__"] = saved2
                 outs.append(R(s2, None, Exc(ecls.rstrip("+"), exact=not ecls.endswith("+"))))
         # normal edge
         self.havoc_frame(sx, con, vals, st)
